@@ -404,7 +404,7 @@ def run(ctx):
                  'most significant digit, numbers by value (rules C12.1 - C12.5 re-run): a comparator that departs from the recipe in one of the two types orders some pair differently from the other', floor=20)
         from ..order import SubCtx as _Sub11
         from . import c12 as _c12
-        _c12.run(_Sub11(ctx, 'C11.5-order-recipes', 'c12', allow=('C12.1-rank-table', 'C12.2-number-shapes', 'C12.2-nothing-narrowed', 'C12.3-bigint-digits', 'C12.3-bigint-signs', 'C12.4-map-recipe', 'C12.5-recipes')))
+        _c12.run(_Sub11(ctx, 'C11.5-order-recipes', 'c12', allow=('C12.1-rank-table', 'C12.2-number-shapes', 'C12.2-nothing-narrowed', 'C12.3-bigint-digits', 'C12.3-bigint-signs', 'C12.4-map-recipe', 'C12.5-recipes', 'C12.5-zip-needs-length')))
 
 
 def _show(r):
